@@ -37,6 +37,44 @@ def main() -> int:
     return run(chk, no_model=args.no_model)
 
 
+def _one(chk, c):
+    try:
+        return lib.canon(chk.run_impl(c))
+    except Exception as e:  # a harness crash is reported, never swallowed
+        return {'harness_error': f'{type(e).__name__}: {e}', 'tb': traceback.format_exc()[-1500:]}
+
+
+def _worker(args):
+    prop, tier, seed, idx = args
+    chk = load(prop, tier, seed)
+    cases = chk.cases()
+    out = []
+    for i in idx:
+        c = cases[i]
+        obs = _one(chk, c)
+        out.append((i, obs, {k: v for k, v in c.items() if str(k).startswith('_')}))
+    return out
+
+
+def run_impl_all(chk, cases):
+    """Runs the real code on every case; in worker processes when the check asks for it
+    (cases() is deterministic in (tier, seed), so workers regenerate the same list)."""
+    nproc = getattr(chk, 'workers', 1)
+    if nproc <= 1 or len(cases) < 64:
+        return [_one(chk, c) for c in cases]
+    import multiprocessing as mp
+    from concurrent.futures import ProcessPoolExecutor
+
+    chunks = [list(range(k, len(cases), nproc)) for k in range(nproc)]
+    impl_obs = [None] * len(cases)
+    with ProcessPoolExecutor(max_workers=nproc, mp_context=mp.get_context('spawn')) as ex:
+        for part in ex.map(_worker, [(chk.id, chk.tier, chk.seed, ch) for ch in chunks]):
+            for i, obs, private in part:
+                impl_obs[i] = obs
+                cases[i].update(private)
+    return impl_obs
+
+
 def replay(chk, path: Path) -> int:
     doc = json.loads(path.read_text())
     case = doc.get('case')
@@ -95,12 +133,7 @@ def run(chk: lib.PropertyCheck, no_model=False) -> int:
     # 4. correspondence + oracle on the implementation
     t = time.time()
     cases = chk.cases()
-    impl_obs = []
-    for c in cases:
-        try:
-            impl_obs.append(lib.canon(chk.run_impl(c)))
-        except Exception as e:  # a harness crash is reported, never swallowed
-            impl_obs.append({'harness_error': f'{type(e).__name__}: {e}', 'tb': traceback.format_exc()[-1500:]})
+    impl_obs = run_impl_all(chk, cases)
     timing['impl_s'] = round(time.time() - t, 1)
 
     t = time.time()
@@ -125,7 +158,7 @@ def run(chk: lib.PropertyCheck, no_model=False) -> int:
     for i, c in enumerate(cases):
         obs = impl_obs[i]
         if isinstance(obs, dict) and 'harness_error' in obs:
-            broken.append({'tie': 'harness', 'case': c, 'detail': obs})
+            broken.append({'tie': 'harness', 'case': lib.pub(c), 'detail': obs})
             continue
         try:
             msg = chk.oracle(c, obs)
@@ -133,15 +166,15 @@ def run(chk: lib.PropertyCheck, no_model=False) -> int:
             msg = None
             broken.append({'tie': 'harness-oracle', 'case': c, 'detail': f'{type(e).__name__}: {e}'})
         if msg:
-            failures.append({'case': c, 'observation': obs, 'oracle': msg, 'key': chk.finding_key(c, obs)})
+            failures.append({'case': lib.pub(c), 'observation': obs, 'oracle': msg, 'key': chk.finding_key(c, obs), '_i': i})
         if chk.nontrivial(c, obs):
             nontrivial.add(lib.case_id(c))
     for i in disagreements:
-        if not any(f['case'] is cases[i] for f in failures):
+        if not any(f.get('_i') == i for f in failures):
             broken.append(
                 {
                     'tie': 'correspondence',
-                    'case': cases[i],
+                    'case': lib.pub(cases[i]),
                     'implementation': chk.comparable(cases[i], impl_obs[i]),
                     'model': model_obs[i],
                 }
@@ -165,7 +198,7 @@ def run(chk: lib.PropertyCheck, no_model=False) -> int:
                 obs = lib.canon(chk.run_impl(c))
                 msg = chk.oracle(c, obs)
                 if msg:
-                    failures.append({'case': c, 'observation': obs, 'oracle': msg, 'key': chk.finding_key(c, obs)})
+                    failures.append({'case': lib.pub(c), 'observation': obs, 'oracle': msg, 'key': chk.finding_key(c, obs)})
                     break
         except Exception as e:
             chk.notes.append(f'search aborted: {type(e).__name__}: {e}')
@@ -249,7 +282,7 @@ def run(chk: lib.PropertyCheck, no_model=False) -> int:
         'distinct_nontrivial': len(nontrivial),
         'rule': chk.rule(),
         'samples': [
-            {'case': cases[i], 'implementation': _clip(impl_obs[i]), 'model': _clip(model_obs[i])}
+            {'case': lib.pub(cases[i]), 'implementation': _clip(impl_obs[i]), 'model': _clip(model_obs[i])}
             for i in _sample_idx(len(cases))
         ],
         'distribution': chk.distribution(cases),
